@@ -1,7 +1,7 @@
-HOOK_COMMITS = ["341cf12", "11958cd"]
+HOOK_COMMITS = ["341cf12", "11958cd", "a42f779", "36abb38", "cf8069d"]
 NOTES = ("Verdicts come only from property monitors evaluated by TLC on events recorded from the real code; a "
          "conformance divergence between code and specification is reported in the evidence but is never a violation. "
-         "Fix commits in /repo: 00358e6 (F7), c768102 (F1), 92c7e00 (F5), 905c7fb (F2); known findings F6, F8; see known_findings.json.")
+         "Fix commits in /repo: 00358e6 (F7), c768102 (F1), 92c7e00 (F5), 905c7fb (F2), 18b399f (F4); known findings F6, F8; see known_findings.json.")
 _A = ("rig A (fake client / metadata / consumer around the real stream, observer and checkpoint code); "
       "gate-level atomicity; bounded constants of the TLC configurations; TLC, the Go runtime and the harness are trusted")
 CHECKS = {
@@ -42,6 +42,17 @@ CHECKS.update({
                     "resume mid-snapshot); TLC checks exhaustively that the consumer sees exactly the expected document events in "
                     "order, once; the same expectation monitor runs on real-code traces of TLC-generated schedules.",
             "ref": "6/C03", "note": _A + "; field fidelity beyond kind/seqno/key class/offset is not yet covered", "technique": _T},
+    "C07": {"text": "the rollback-mitigation gate is part of Core.tla: every observer callback first waits until the stream's threshold "
+                    "covers its seqno or the observer is closed (Push / GateOpen), persistence reports of every listed copy arrive in any "
+                    "order with any vbUUID / seqno / absence (Report / Absent update the replica table; getMinSeqNo is transcribed; "
+                    "SetPersistSeqNo ignores 0 and never decreases). TLC checks exhaustively that nothing takes effect before every listed "
+                    "copy reported it under one vbUUID, the threshold is monotone and never ahead of the reports, a covered event goes on, "
+                    "Close() releases waiting events undelivered. The same monitor (with its own definition of the common minimum) judges "
+                    "real-code traces: real observers with the gate switched on, the real getMinSeqNo / IsOutdated / dispatchPersistSeqNo / "
+                    "SetPersistSeqNo driven by the schedule's reports.",
+            "ref": "6/C07", "note": _A + "; the OBSERVE_SEQNO polling loop, config watching and error handling of rollback_mitigation.go need a "
+                    "connected gocbcore agent and are not executed (the reply handler's table update is reproduced in couchbase/export_verif.go "
+                    "from its real parts)", "technique": _T},
     "C08": {"text": "rollback on stream open as an environment choice in Core.tla (any R <= F): after it nothing at or below F "
                     "is shown, everything above is, offsets carry the new branch uuid; exhaustive in TLC, monitored on rig-A "
                     "traces (the fake client plays the part of client.OpenStream's rollback path; the second stream request "
